@@ -13,6 +13,21 @@ CHECKS = {
  "C16": ("generated affines/gradients at encoder branch boundaries; field-quantised recomposition per COLR spec, compile round trip, colour-at-mapped-point oracle", "§4 C16",
          "Generated affines (mixture aimed at every branch boundary and range limit of paint.transformed) and gradient geometries; each emitted paint is decoded per the COLR specification after quantising every field to its OpenType type and must reproduce the affine within the propagated quantisation bound, in isolation and after compiling into a real COLR table; out-of-range values must raise. Sampling of a continuous domain with boundary-directed generators.",
          "Trusted: fontTools COLR compiler/decompiler; the spec formulas in vlib/ref_colr.py (self-tested against fontTools getTransform)."),
+ "C02": ("generated SVG sets/configs; own SVG interpreter of the stored OT-SVG documents vs reference tree; structural identity for untouched SVG", "§4 C02",
+         "Generated source sets (shared shape libraries so documents group and reorder glyphs, codepoint sequences) compiled to picosvg(z)/untouchedsvg(z); the SVG table is read back, the document covering the shaped glyph must hold exactly one glyph<ID> element, which is interpreted (use/defs/inheritance/transforms) and compared with the reference tree; untouched SVG is compared structurally plus the placement matrix. Sampling.",
+         "Trusted: fontTools SVG table decompiler, lxml, the reference SVG interpreter (same code reads source and output, so only meaning-preserving differences pass), tolerances derived from 3-decimal rounding of the transform chain."),
+ "C03": ("generated SVG sets; COLRv0 layers / glyf contours read from the binary vs reference outlines (ordered for solid sources, perfect matching otherwise)", "§4 C03",
+         "Generated sets over glyf and the three COLRv0 flavours; for solid, group-free sources the v0 layers must equal the source shapes in z-order with colour and palette alpha and be covered by the base glyph bounds; for any source the placed outlines must match the source outlines one-to-one. Sampling.",
+         "Trusted: fontTools COLR/CPAL/glyf/CFF decompilers; reference SVG interpreter."),
+ "C05": ("generated reuse-heavy SVG sets x quantisation; clip box vs independently computed exact bounds", "§4 C05",
+         "Generated COLRv1 builds weighted to rotated/reflected/scaled reuse, user transforms and content outside the viewBox; ClipBox presence, grid alignment and containment of exact curve bounds of compiled outlines (after all paint transforms) and of source shapes are recomputed from the binary and the source. Sampling.",
+         "Trusted: fontTools decompilers; exact bounds code in vlib/geom.py."),
+ "C06": ("metamorphic: same generated sources built with reuse tolerance t and -1, display trees compared layer-wise", "§4 C06",
+         "Metamorphic relation over generated sets with recurring shapes under all affine classes incl. near-misses: reuse-on and reuse-off builds must both succeed and be layer-for-layer equivalent (COLRv1, COLRv0, picosvg). No reference to the source needed. Sampling.",
+         "Trusted: the COLR/SVG interpreters (same interpreter on both sides); budgets = tolerance + quantisation of both builds."),
+ "C19": ("generated isometric families; stored-outline identity read from the binary; complement at tolerance -1", "§4 C19",
+         "Generated families of exact isometric copies (>= 6 decimals) across 1-3 glyphs; every member must resolve to one stored outline (COLR glyph / SVG path + use), and to separate outlines with reuse disabled. Sampling; misses are classified by root cause with picosvg's own key function.",
+         "Trusted: fontTools decompilers; picosvg.normalize used only to classify a miss (third-party key function)."),
 }
 NOT_APPLICABLE = []
 def main():
